@@ -44,6 +44,8 @@ def shapes(tier):
             for units_ in ("default", "other"):
                 out.append({"poly": npoly, "noff": noff, "jitter": "sampled" if (npoly + noff) % 2 else "constant", "units": units_})
     out.append({"poly": 3, "noff": 1, "jitter": "sampled", "units": "other"})
+    # a reference epoch that is not the first observation
+    out.append({"poly": 2, "noff": 0, "jitter": "constant", "units": "default", "tref": "explicit"})
     return out
 
 
@@ -63,6 +65,8 @@ def _build(shape):
     err = rnd.uniform(0.5, 1.5, nt) * u.km / u.s
     if noff:
         data = [tj.RVData(t[:2], rv[:2], err[:2]), tj.RVData(t[2:], rv[2:], err[2:])]
+    elif shape.get("tref") == "explicit":
+        data = tj.RVData(t, rv, err, t_ref=Time(t.tcb.mjd.min() - 7.25, format="mjd", scale="tcb"))
     else:
         data = tj.RVData(t, rv, err)
     vun = u.m / u.s if other else u.km / u.s
